@@ -24,7 +24,7 @@ TITLE = 'escaping of inserted values'
 LEVEL = 'exploration'
 SHARDS = {'quick': 16, 'thorough': 16}
 FLOOR = {'quick': 800, 'thorough': 3000}
-REQUIRED_MONITORS = {'sites-checked': 1200, 'sites-checked-default-translation': 400, 'opt-outs-checked': 150}
+REQUIRED_MONITORS = {'sites-checked': 1200, 'sites-checked-default-translation': 400, 'sites-checked-through-a-loader': 100, 'opt-outs-checked': 150}
 RULE = ('a case = (site kind, wrapper, hostile value, neighbours); 27 site kinds {element text, "attr", \'attr\', two '
         'interpolations in one attribute, tal:attributes onto new / "static" / \'static\' attribute, dictionary attribute value, '
         'comment, tal:content, tal:replace, string: in content, string: in attribute, ${} inside i18n:translate, i18n:name '
@@ -165,7 +165,10 @@ def str_form(v):
     return exprs.to_text(v)
 
 
-def render(src, v, mode='xml', tr='custom', cfg=None):
+LOADER_DIR = []
+
+
+def render(src, v, mode='xml', tr='custom', cfg=None, route=None):
     from chameleon import PageTemplate, PageTextTemplate
     CATALOGUE['CATALOGUE-KEY'] = str_form(v)
     cls = PageTemplate if mode == 'xml' else PageTextTemplate
@@ -173,6 +176,18 @@ def render(src, v, mode='xml', tr='custom', cfg=None):
     if tr == 'custom':
         kw['translate'] = translate
     try:
+        if route == 'loader-after-text-load':
+            # the template comes out of a loader that has already handed the same file out as a text template
+            import hashlib, os, tempfile
+            from chameleon import PageTemplateLoader
+            if not LOADER_DIR:
+                LOADER_DIR.append(tempfile.mkdtemp(prefix='c02l_'))
+            name = hashlib.sha1(src.encode('utf-8')).hexdigest()[:16] + '.pt'
+            with open(os.path.join(LOADER_DIR[0], name), 'w', encoding='utf-8') as f:
+                f.write(src)
+            loader = PageTemplateLoader(LOADER_DIR[0], **kw)
+            loader.load(name, 'text')(v='SAFE', h='h', str_of=str_form)
+            return loader.load(name)(v=v, h=exprs.Markup(str_form(v)), str_of=str_form)
         return cls(src, **kw)(v=v, h=exprs.Markup(str_form(v)), str_of=str_form)
     except Exception as e:
         return 'RAISED %s: %s' % (type(e).__name__, str(e).split('\n')[0][:100])
@@ -235,11 +250,15 @@ DEFAULT_TR_SITES = ('in-translate', 'i18n-name', 'i18n-name-content', 'i18n-name
 IMPLICIT_CFG = {'implicit_i18n_translate': True, 'implicit_i18n_attributes': ['a']}
 
 
-def check_site(ctx, site, wrapper, vname, v, tr='custom', cfg=None):
+def check_site(ctx, site, wrapper, vname, v, tr='custom', cfg=None, route=None):
     tpl, region = SITES[site]
     src = '<root>' + WRAPPERS[wrapper] % tpl + '</root>'
-    safe = render(src, 'SAFE', tr=tr, cfg=cfg)
-    out = render(src, v, tr=tr, cfg=cfg)
+    safe = render(src, 'SAFE', tr=tr, cfg=cfg, route=route)
+    out = render(src, v, tr=tr, cfg=cfg, route=route)
+    if route:
+        ctx.mon('sites-checked-through-a-loader')
+        return _judge(ctx, site, site + ':' + route, wrapper, vname, v, src, safe, out, region,
+                      {'kind': 'site', 'site': site, 'wrapper': wrapper, 'value': vname, 'route': route})
     if tr != 'custom' or cfg:
         ctx.mon('sites-checked-default-translation')
         site_label = site + (':default-translation' if tr != 'custom' else '') + (':implicit' if cfg else '')
@@ -330,6 +349,17 @@ def run(ctx):
                     if cfg and s in ('in-translate', 'i18n-name', 'i18n-name-content', 'i18n-name-attr', 'two-names') and w != 'plain':
                         continue
                     check_site(ctx, s, w, hn, hv, tr='default', cfg=cfg)
+    # the same sinks in a template that comes out of a loader (after the file was also loaded as text)
+    k = 0
+    vals = dict(HOSTILE)
+    for s in sorted(SITES):
+        for hn in ('all', 'attr-break', 'attr-break-sq', 'tag', 'entity-amp'):
+            k += 1
+            if k % ctx.nshards == ctx.shard:
+                check_site(ctx, s, 'plain', hn, vals[hn], route='loader-after-text-load')
+    if LOADER_DIR:
+        import shutil
+        shutil.rmtree(LOADER_DIR.pop(), ignore_errors=True)
     opt = [(n, hn, hv) for n in sorted(OPTOUTS) for hn, hv in HOSTILE]
     for i, (n, hn, hv) in enumerate(opt):
         if i % ctx.nshards != ctx.shard:
@@ -346,5 +376,6 @@ def replay(data):
         return True, 'template %r value %r -> %r' % (src, v, render(src, v, mode))
     tpl, region = SITES[data['site']]
     src = '<root>' + WRAPPERS[data['wrapper']] % tpl + '</root>'
-    tr, cfg = data.get('tr', 'custom'), data.get('cfg')
-    return True, 'template %r value %r -> %r\nharmless -> %r' % (src, v, render(src, v, tr=tr, cfg=cfg), render(src, 'SAFE', tr=tr, cfg=cfg))
+    tr, cfg, route = data.get('tr', 'custom'), data.get('cfg'), data.get('route')
+    return True, 'template %r value %r -> %r\nharmless -> %r' % (src, v, render(src, v, tr=tr, cfg=cfg, route=route),
+                                                                render(src, 'SAFE', tr=tr, cfg=cfg, route=route))
